@@ -15,7 +15,7 @@ VARIABLES declared,     \* names declared by uses() or created through the recip
           cur,          \* the open stage, "all" if none
           locked,       \* baked successfully
           nsteps,       \* number of deferred steps
-          dead          \* a bake failed: the recipe is abandoned (terminal)
+          dead          \* a bake failed part-way: results and stage bookkeeping are no longer specified; NOT locked
 
 lvars == <<declared, used, stageNames, cur, locked, nsteps, dead>>
 
@@ -34,12 +34,18 @@ StartOutcome(s) == IF locked THEN "RuntimeError"
 EndOutcome(s) == IF locked THEN "RuntimeError" ELSE IF s = "all" \/ cur # s THEN "refused" ELSE "ok"
 BakeOutcome == IF locked THEN "RuntimeError" ELSE IF declared # used THEN "refused" ELSE "ok"
 
-LUses(n) == /\ ~dead /\ UsesOutcome(n) = "ok"
+LUses(n) == /\ UsesOutcome(n) = "ok"
             /\ declared' = declared \cup {n}
             /\ UNCHANGED <<used, stageNames, cur, locked, nsteps, dead>>
 
+\* several objects in one uses() call: the (possibly empty) set of names that got declared before the call succeeded or
+\* failed on a duplicate; none of them was declared before
+LUsesSome(S) == /\ ~locked /\ S \cap declared = {}
+                /\ declared' = declared \cup S
+                /\ UNCHANGED <<used, stageNames, cur, locked, nsteps, dead>>
+
 LStep(ops, creates, marks) ==
-  /\ ~dead /\ StepOutcome(ops, creates) = "ok"
+  /\ StepOutcome(ops, creates) = "ok"
   /\ declared' = declared \cup (IF creates = "-" THEN {} ELSE {creates})
   /\ used' = used \cup marks
   /\ nsteps' = nsteps + 1
@@ -57,7 +63,9 @@ LBake == /\ ~dead /\ BakeOutcome = "ok"
          /\ cur' = "all"
          /\ UNCHANGED <<declared, used, nsteps, dead>>
 
-\* a bake that fails because a step is infeasible: the recipe is abandoned.  (A bake refused because a declared
+\* a bake that fails because a step is infeasible: what the results and the stages are afterwards is not specified (the
+\* implementation has executed a prefix of the steps), but the recipe has NOT been baked successfully, so it is not locked:
+\* declaring and step-adding calls go on under the same discipline (LUses, LStep above do not ask for ~dead).  (A bake refused because a declared
 \* object is unused changes nothing - BakeOutcome = "refused" - and the recipe can be completed and baked.)
 LBakeFail == /\ ~dead /\ ~locked /\ dead' = TRUE
              /\ UNCHANGED <<declared, used, stageNames, cur, locked, nsteps>>
